@@ -36,7 +36,7 @@ def coverage_class(tr, ev):
     f = ev.get("f")
     fc = "-" if f is None else ("nan" if f == [0, 0] else ("pos" if f[0] > 0 else "nonpos"))
     return (tr.get("root", "?"), ev["op"], ev.get("out"), ncls(x["x"]) if x else "-", ncls(x["y"]) if x else "-", wc, fc,
-            ev.get("wf", "-"), ev.get("which", "-"), ev.get("via", "-"))
+            ev.get("wf", "-"), ev.get("which", "-"), ev.get("via", "-"), ev.get("mkind", "-"), ev.get("st", "-"))
 
 
 def run_check(pid, tier, seed, plan=None):
